@@ -86,8 +86,8 @@ pub fn start(config: Config) -> Result<Tracker, String> {
             LIVE_SOCKET_WORKERS.fetch_add(t.config.socket_workers, std::sync::atomic::Ordering::SeqCst);
             return Ok(t);
         }
-        if t0.elapsed() > Duration::from_secs(15) {
-            return Err("tracker did not answer a connect request within 15 s".into());
+        if t0.elapsed() > Duration::from_secs(90) {
+            return Err("tracker did not answer a connect request within 90 s".into());
         }
     }
 }
